@@ -81,7 +81,6 @@ std::unique_ptr<NodeResult> FunctionCallNode::evaluate(PSC::Context &ctx) {
         throw PSC::RuntimeError(token, ctx, "VERIF budget exhausted: depth");
 #endif
     auto functionCtx = std::make_unique<PSC::Context>(&ctx, functionName, true, function->returnType);
-    ctx.switchToken = &token;
 
     for (size_t i = 0; i < args.size(); i++) {
         auto &argRes = argResults[i];
@@ -148,6 +147,9 @@ std::unique_ptr<NodeResult> FunctionCallNode::evaluate(PSC::Context &ctx) {
         functionCtx->addVariable(var);
     }
 
+    // the call site is noted only now: binding a BYREF argument may itself call a function (in an index
+    // expression), and that call clears the note of the context it ran in
+    ctx.switchToken = &token;
     try {
         function->run(*functionCtx);
     } catch (ReturnErrSignal&) {}
